@@ -374,6 +374,57 @@ MUTANTS = {
         "dtype=\"float32\")",
         "    return p_and_n * np.array(\n        self.max() / 2.0 ** ("
         "self.bits - 1), dtype=\"float32\")")]),
+    "m76_merge_energy_counts_all_inputs": dict(expect=["C19"], edits=[E(
+        "qkeras/qtools/qenergy/qenergy.py", "      energy_op = (number_of_inputs - 1) * operation_count * "
+        "gate_factor * OP[", "      energy_op = number_of_inputs * "
+        "operation_count * gate_factor * OP[")]),
+    "m77_bias_read_uses_weight_bits": dict(expect=["C19"], edits=[E(
+        "qkeras/qtools/qenergy/qenergy.py", "          False, bias_shapes, weights_on_memory, "
+        "min_sram_size, rd_wr_on_io,\n          bias_quantizer.bits, "
+        "is_tensor=False", "          False, bias_shapes, weights_on_memory, "
+        "min_sram_size, rd_wr_on_io,\n          weight_quantizer.bits, "
+        "is_tensor=False")]),
+    "m78_output_write_uses_activation_memory_flag": dict(expect=["C19"],
+                                                         edits=[E(
+        "qkeras/qtools/qenergy/qenergy.py", "    output_wr_energy = memory_write_energy(\n        "
+        "is_output_layer, output_shapes,", "    output_wr_energy = "
+        "memory_write_energy(\n        is_input_layer, output_shapes,")]),
+    "m79_pool_multiplier_output_not_input_type": dict(expect=["C18"], edits=[E(
+        "qkeras/qtools/generate_layer_data_type_map.py", "      fake_multiplier.output = input_quantizer\n", "")]),
+    "m80_quantized_pool_reports_accumulator": dict(expect=["C18"], edits=[E(
+        "qkeras/qtools/generate_layer_data_type_map.py", "        # If is quantized layer, last operation is multiply "
+        "(averaging).\n        layer_quantizer = multiplier.output",
+        "        # If is quantized layer, last operation is multiply "
+        "(averaging).\n        layer_quantizer = accumulator.output")]),
+    "m81_activation_arm_reports_activation_attr": dict(expect=["C18"], edits=[E(
+        "qkeras/qtools/generate_layer_data_type_map.py", "      else:\n        layer_quantizer = layer.quantizer\n\n"
+        "        if not quantizer_factory.is_quantizer_supported(",
+        "      else:\n        layer_quantizer = layer.activation\n\n"
+        "        if not quantizer_factory.is_quantizer_supported(")]),
+    "m82_estimator_positive_sum_without_bias": dict(expect=["C18"], edits=[E(
+        "qkeras/estimate.py",
+        "        n1 = npp * (x_max > 0) * x_max + nnn * (x_min < 0) * x_min "
+        "+ b[i]\n",
+        "        n1 = npp * (x_max > 0) * x_max + nnn * (x_min < 0) * x_min"
+        "\n")]),
+    "m83_estimator_max_over_signed_sums": dict(expect=["C18"], edits=[E(
+        "qkeras/estimate.py",
+        "        n0 = - (nnn * (x_max > 0) * x_max + npp * (x_min < 0) * "
+        "x_min + b[i])\n",
+        "        n0 = (nnn * (x_max > 0) * x_max + npp * (x_min < 0) * "
+        "x_min + b[i])\n")]),
+    "m84_causal_pad_on_the_right": dict(expect=["C11"], edits=[E(
+        "qkeras/qconvolutional.py",
+        "    outputs = tf.keras.backend.conv1d(\n        inputs,\n        "
+        "quantized_kernel,\n        strides=self.strides[0],\n        "
+        "padding=self.padding,\n",
+        "    op_padding = self.padding\n    if self.padding == \"causal\":\n"
+        "      pad = self.dilation_rate[0] * (self.kernel_size[0] - 1)\n"
+        "      inputs = array_ops.pad(inputs, [[0, 0], [0, pad], [0, 0]])\n"
+        "      op_padding = \"valid\"\n"
+        "    outputs = tf.keras.backend.conv1d(\n        inputs,\n        "
+        "quantized_kernel,\n        strides=self.strides[0],\n        "
+        "padding=op_padding,\n")]),
 }
 
 BENIGN = {
@@ -594,4 +645,38 @@ BENIGN = {
         '[]))\n      value += sum(',
         '      default_keys = cfg_setting.get("default", [])\n      keys = '
         'cfg_setting.get(class_name, default_keys)\n      value += sum(')]),
+    "b34_causal_padding_applied_by_the_layer": dict(props=["C11", "C13"],
+                                                    edits=[E(
+        "qkeras/qconvolutional.py",
+        "    outputs = tf.keras.backend.conv1d(\n        inputs,\n        "
+        "quantized_kernel,\n        strides=self.strides[0],\n        "
+        "padding=self.padding,\n",
+        "    op_padding = self.padding\n    if self.padding == \"causal\":\n"
+        "      pad = self.dilation_rate[0] * (self.kernel_size[0] - 1)\n"
+        "      inputs = array_ops.pad(inputs, [[0, 0], [pad, 0], [0, 0]])\n"
+        "      op_padding = \"valid\"\n"
+        "    outputs = tf.keras.backend.conv1d(\n        inputs,\n        "
+        "quantized_kernel,\n        strides=self.strides[0],\n        "
+        "padding=op_padding,\n")]),
+    "b35_estimator_range_parts_hoisted": dict(props=["C18"], edits=[
+        E("qkeras/estimate.py",
+          "      all_bits = []\n      nbits = []\n",
+          "      x_min, x_max = x[layer.name][0], x[layer.name][1]\n"
+          "      x_pos = x_max if x_max > 0 else 0\n"
+          "      x_neg = x_min if x_min < 0 else 0\n"
+          "      all_bits = []\n      nbits = []\n"),
+        E("qkeras/estimate.py",
+          "        n1 = npp * (x_max > 0) * x_max + nnn * (x_min < 0) * x_min"
+          " + b[i]\n        n0 = - (nnn * (x_max > 0) * x_max + npp * "
+          "(x_min < 0) * x_min + b[i])\n",
+          "        n1 = npp * x_pos + nnn * x_neg + b[i]\n"
+          "        n0 = - (nnn * x_pos + npp * x_neg + b[i])\n")]),
+    "b36_estimator_exact_extremes": dict(props=["C18"], edits=[E(
+        "qkeras/estimate.py",
+        "        n1 = npp * (x_max > 0) * x_max + nnn * (x_min < 0) * x_min"
+        " + b[i]\n        n0 = - (nnn * (x_max > 0) * x_max + npp * "
+        "(x_min < 0) * x_min + b[i])\n",
+        "        # exact extremes of sum(w * x) + b over the input range\n"
+        "        n1 = npp * x_max + nnn * x_min + b[i]\n"
+        "        n0 = - (nnn * x_max + npp * x_min + b[i])\n")]),
 }
